@@ -3,18 +3,31 @@ import PypyrModel.Cmd
 
 namespace Pypyr.Cmd
 
+theorem stops_false_iff (p : Proc) : p.stops = false ↔ p.spawn = none ∧ p.code = 0 := by
+  cases h : p.spawn <;> simp [Proc.stops, h]
+
+theorem stops_true_iff (p : Proc) : p.stops = true ↔ p.spawn ≠ none ∨ p.code ≠ 0 := by
+  cases h : p.spawn <;> simp [Proc.stops, h]
+
+theorem ran_iff (p : Proc) : p.ran = true ↔ p.spawn = none := by
+  cases h : p.spawn <;> simp [Proc.ran, h]
+
+theorem ran_of_not_stops {p : Proc} (h : p.stops = false) : p.ran = true :=
+  (ran_iff p).mpr ((stops_false_iff p).mp h).1
+
 def declsOfCmd (c : SCommand) : List Decl := c.run.map (fun p => ⟨p, c.save, c.text⟩)
 
 theorem declsOf_cons (c : SCommand) (cs : List SCommand) :
     declsOf (c :: cs) = declsOfCmd c ++ declsOf cs := rfl
 
-/-- First failing declaration. -/
+/-- Error of the first declaration that `stops`. -/
 def firstFailD : List Decl → Option CmdErr
   | [] => none
-  | d :: ds => if d.proc.code ≠ 0 then some ⟨d.proc.id, d.proc.code⟩ else firstFailD ds
+  | d :: ds => if d.proc.stops then some d.proc.error else firstFailD ds
 
+/-- One result per declaration with `save` whose process existed. -/
 def resultsOfD (ds : List Decl) : List Result :=
-  (ds.filter (·.save)).map (fun d => mkResultSync d.text d.proc)
+  (ds.filter (fun d => d.save && d.proc.ran)).map (fun d => mkResultSync d.text d.proc)
 
 theorem resultsOfD_append (a b : List Decl) : resultsOfD (a ++ b) = resultsOfD a ++ resultsOfD b := by
   simp [resultsOfD]
@@ -23,21 +36,25 @@ theorem resultsOfD_append (a b : List Decl) : resultsOfD (a ++ b) = resultsOfD a
 theorem runProcs_closed (save text : Bool) (ps : List Proc) :
     let ds := ps.map (fun p => (⟨p, save, text⟩ : Decl))
     runProcs save text ps =
-      { started := (takeThroughD ds).map (·.proc.id),
+      { started := (ranD ds).map (·.proc.id),
         results := resultsOfD (takeThroughD ds),
         err := firstFailD ds } := by
   induction ps with
-  | nil => simp [runProcs, takeThroughD, resultsOfD, firstFailD]
+  | nil => simp [runProcs, ranD, takeThroughD, resultsOfD, firstFailD]
   | cons p ps ih =>
     simp only [List.map_cons]
     unfold runProcs
-    simp only [takeThroughD, firstFailD]
-    by_cases h : p.code ≠ 0
-    · cases save <;> simp [h, resultsOfD]
-    · simp only [h, if_false]
-      simp only [] at ih
-      rw [ih]
-      cases save <;> simp [resultsOfD]
+    simp only [ranD, takeThroughD, firstFailD]
+    cases hsp : p.spawn with
+    | some k => simp [Proc.stops, Proc.ran, Proc.error, hsp, resultsOfD]
+    | none =>
+      by_cases h : p.code ≠ 0
+      · cases save <;> simp [Proc.stops, Proc.ran, Proc.error, hsp, h, resultsOfD]
+      · have hz : p.code = 0 := by omega
+        simp only [ranD] at ih
+        simp only [h, if_false]
+        rw [ih]
+        cases save <;> simp [Proc.stops, Proc.ran, hsp, hz, resultsOfD]
 
 theorem takeThroughD_append (a b : List Decl) :
     takeThroughD (a ++ b) = match firstFailD a with
@@ -47,9 +64,9 @@ theorem takeThroughD_append (a b : List Decl) :
   | nil => simp [firstFailD]
   | cons d ds ih =>
     simp only [List.cons_append, takeThroughD, firstFailD]
-    by_cases h : d.proc.code ≠ 0
+    by_cases h : d.proc.stops = true
     · simp [h]
-    · simp only [h, if_false, ih]
+    · simp only [h, ih]
       cases firstFailD ds <;> simp
 
 theorem firstFailD_append (a b : List Decl) :
@@ -60,57 +77,73 @@ theorem firstFailD_append (a b : List Decl) :
   | nil => simp [firstFailD]
   | cons d ds ih =>
     simp only [List.cons_append, firstFailD]
-    by_cases h : d.proc.code ≠ 0
+    by_cases h : d.proc.stops = true
     · simp [h]
-    · simp only [h, if_false, ih]
+    · simp [h, ih]
 
 theorem takeThroughD_of_none {a : List Decl} (h : firstFailD a = none) : takeThroughD a = a := by
   induction a with
   | nil => rfl
   | cons d ds ih =>
     simp only [firstFailD] at h
-    by_cases hc : d.proc.code ≠ 0
+    by_cases hc : d.proc.stops = true
     · simp [hc] at h
-    · simp only [hc, if_false] at h
+    · simp only [hc] at h
       simp [takeThroughD, hc, ih h]
+
+theorem firstFailD_none_iff (ds : List Decl) :
+    firstFailD ds = none ↔ ∀ d ∈ ds, d.proc.stops = false := by
+  induction ds with
+  | nil => simp [firstFailD]
+  | cons d ds ih =>
+    simp only [firstFailD]
+    by_cases hc : d.proc.stops = true
+    · simp [hc]
+    · have hz : d.proc.stops = false := by simpa using hc
+      simp [ih, hz]
+
+theorem all_ran_of_none {a : List Decl} (h : firstFailD a = none) : a.filter (·.proc.ran) = a := by
+  apply List.filter_eq_self.mpr
+  intro d hd
+  exact ran_of_not_stops ((firstFailD_none_iff a).mp h d hd)
 
 /-- Closed form of the whole step loop. -/
 theorem runCommands_closed (cs : List SCommand) :
     runCommands cs =
-      { started := (takeThroughD (declsOf cs)).map (·.proc.id),
+      { started := (ranD (declsOf cs)).map (·.proc.id),
         results := resultsOfD (takeThroughD (declsOf cs)),
         err := firstFailD (declsOf cs) } := by
   induction cs with
-  | nil => simp [runCommands, declsOf, takeThroughD, resultsOfD, firstFailD]
+  | nil => simp [runCommands, declsOf, ranD, takeThroughD, resultsOfD, firstFailD]
   | cons c cs ih =>
     unfold runCommands
     have hc := runProcs_closed c.save c.text c.run
-    simp only [] at hc
-    simp only [SCommand.exec, declsOf_cons, declsOfCmd]
+    simp only [ranD] at hc
+    simp only [SCommand.exec, declsOf_cons, declsOfCmd, ranD]
     rw [hc, takeThroughD_append, firstFailD_append]
     cases hf : firstFailD (c.run.map fun p => (⟨p, c.save, c.text⟩ : Decl)) with
     | some e => simp
     | none =>
       simp only [ih]
       rw [takeThroughD_of_none hf]
-      simp [resultsOfD_append]
+      simp [resultsOfD_append, ranD, all_ran_of_none hf]
 
-/-- `takeThroughD` really is "prefix up to and including the first non-zero exit". -/
+/-- `takeThroughD` really is "prefix up to and including the first one that stops". -/
 theorem takeThroughD_split (ds : List Decl) :
     ∃ rest, ds = takeThroughD ds ++ rest ∧
       match firstFailD ds with
-      | none => rest = [] ∧ ∀ d ∈ takeThroughD ds, d.proc.code = 0
-      | some e => ∃ init d, takeThroughD ds = init ++ [d] ∧ (∀ x ∈ init, x.proc.code = 0) ∧
-          d.proc.code ≠ 0 ∧ e = ⟨d.proc.id, d.proc.code⟩ := by
+      | none => rest = [] ∧ ∀ d ∈ takeThroughD ds, d.proc.stops = false
+      | some e => ∃ init d, takeThroughD ds = init ++ [d] ∧ (∀ x ∈ init, x.proc.stops = false) ∧
+          d.proc.stops = true ∧ e = d.proc.error := by
   induction ds with
   | nil => exact ⟨[], rfl, by simp [firstFailD, takeThroughD]⟩
   | cons d ds ih =>
     obtain ⟨rest, hsplit, hrest⟩ := ih
-    by_cases hc : d.proc.code ≠ 0
+    by_cases hc : d.proc.stops = true
     · refine ⟨ds, by simp [takeThroughD, hc], ?_⟩
       simp only [firstFailD, takeThroughD, if_pos hc]
       exact ⟨[], d, rfl, by simp, hc, rfl⟩
-    · have hz : d.proc.code = 0 := by omega
+    · have hz : d.proc.stops = false := by simpa using hc
       refine ⟨rest, ?_, ?_⟩
       · simp only [takeThroughD, if_neg hc, List.cons_append]
         rw [← hsplit]
@@ -132,15 +165,64 @@ theorem takeThroughD_split (ds : List Decl) :
           | head => exact hz
           | tail _ hx => exact h2 x hx
 
-theorem firstFailD_none_iff (ds : List Decl) :
-    firstFailD ds = none ↔ ∀ d ∈ ds, d.proc.code = 0 := by
-  induction ds with
-  | nil => simp [firstFailD]
-  | cons d ds ih =>
-    simp only [firstFailD]
-    by_cases hc : d.proc.code ≠ 0
-    · simp [hc]
-    · have hz : d.proc.code = 0 := by omega
-      simp [ih, hz]
+theorem filter_ran_of_not_stops {init : List Decl} (h : ∀ x ∈ init, x.proc.stops = false) :
+    init.filter (·.proc.ran) = init :=
+  List.filter_eq_self.mpr (fun x hx => ran_of_not_stops (h x hx))
+
+/-- The commands actually run, in the vocabulary of the property: a declaration prefix `pre` all of
+    whose processes existed; then either nothing is left and all exited 0, or the last of `pre` exited
+    non-zero (positive or negative) and is the error, or all of `pre` exited 0 and the *next*
+    declaration could not be started and is the error. -/
+theorem ranD_split (ds : List Decl) :
+    ∃ rest, ds = ranD ds ++ rest ∧ (∀ d ∈ ranD ds, d.proc.spawn = none) ∧
+      match firstFailD ds with
+      | none => rest = [] ∧ ∀ d ∈ ranD ds, d.proc.code = 0
+      | some (.exit i c) => ∃ init d, ranD ds = init ++ [d] ∧ (∀ x ∈ init, x.proc.code = 0) ∧
+          d.proc.code ≠ 0 ∧ i = d.proc.id ∧ c = d.proc.code
+      | some (.spawn i k) => (∀ d ∈ ranD ds, d.proc.code = 0) ∧
+          ∃ d rest', rest = d :: rest' ∧ d.proc.spawn = some k ∧ i = d.proc.id := by
+  obtain ⟨rest, h1, h2⟩ := takeThroughD_split ds
+  have hran : ∀ d ∈ ranD ds, d.proc.spawn = none := by
+    intro d hd
+    simp only [ranD, List.mem_filter] at hd
+    exact (ran_iff _).mp hd.2
+  cases hf : firstFailD ds with
+  | none =>
+    rw [hf] at h2
+    have h2' : rest = [] ∧ ∀ d ∈ takeThroughD ds, d.proc.stops = false := h2
+    have hr : ranD ds = takeThroughD ds := filter_ran_of_not_stops h2'.2
+    refine ⟨rest, by rw [hr]; exact h1, hran, h2'.1, ?_⟩
+    intro d hd
+    rw [hr] at hd
+    exact ((stops_false_iff _).mp (h2'.2 d hd)).2
+  | some e =>
+    rw [hf] at h2
+    obtain ⟨init, d, h3, h4, h5, h6⟩ := h2
+    have hinit : init.filter (·.proc.ran) = init := filter_ran_of_not_stops h4
+    cases hsp : d.proc.spawn with
+    | some k =>
+      have hr : ranD ds = init := by
+        unfold ranD
+        rw [h3, List.filter_append, hinit]
+        simp [Proc.ran, hsp]
+      have he : e = .spawn d.proc.id k := by simp [h6, Proc.error, hsp]
+      subst he
+      refine ⟨d :: rest, ?_, hran, ?_, d, rest, rfl, hsp, rfl⟩
+      · rw [hr]; rw [h1, h3]; simp
+      · intro x hx
+        rw [hr] at hx
+        exact ((stops_false_iff _).mp (h4 x hx)).2
+    | none =>
+      have hr : ranD ds = init ++ [d] := by
+        unfold ranD
+        rw [h3, List.filter_append, hinit]
+        simp [Proc.ran, hsp]
+      have he : e = .exit d.proc.id d.proc.code := by simp [h6, Proc.error, hsp]
+      subst he
+      refine ⟨rest, by rw [hr, ← h3]; exact h1, hran, init, d, hr, ?_, ?_, rfl, rfl⟩
+      · intro x hx
+        exact ((stops_false_iff _).mp (h4 x hx)).2
+      · have := (stops_true_iff _).mp h5
+        simpa [hsp] using this
 
 end Pypyr.Cmd
